@@ -117,9 +117,28 @@ def maxUs : Int := 253402300799999999
 /-- a naive datetime, as microseconds since 1970-01-01T00:00:00 -/
 def mkDatetime (us : Int) : Val := .ext "datetime_us" (toString us)
 
-/-- `datetime(1970, 1, 1) + td`: `OverflowError("date value out of range")` outside `[datetime.min, datetime.max]` -/
+/-- days from 1970-01-01 to the civil date `y-m-d` of the proleptic Gregorian calendar (years ≥ 1, as `datetime` has them) -/
+def daysFromCivil (y m d : Int) : Int :=
+  let y' := if m ≤ 2 then y - 1 else y
+  let era := y' / 400
+  let yoe := y' - era * 400
+  let mp := (m + 9) % 12
+  let doy := (153 * mp + 2) / 5 + d - 1
+  let doe := yoe * 365 + yoe / 4 - yoe / 100 + doy
+  era * 146097 + doe - 719468
+
+/-- the date the source adds the seconds to (generated: the literal `datetime(<y>, <m>, <d>)` of the `return` statement), in
+    microseconds since 1970-01-01T00:00:00; `none` when the source adds them to something that is not a literal date -/
+def epochUs : Option Int :=
+  match dateTimeUnixTimestampEpoch with
+  | [y, m, d] => some (daysFromCivil y m d * 86400 * 1000000)
+  | _ => none
+
+/-- `<epoch> + td`: `OverflowError("date value out of range")` outside `[datetime.min, datetime.max]` -/
 def addEpoch (us : Int) : Orc Val :=
-  if minUs ≤ us ∧ us ≤ maxUs then .ok (mkDatetime us) else .raises .overflowError
+  match epochUs with
+  | some e => if minUs ≤ e + us ∧ e + us ≤ maxUs then .ok (mkDatetime (e + us)) else .raises .overflowError
+  | none => .raises (.other "the seconds are not added to a literal date")
 
 /-- `DateTimeUnixTimestamp().validate(v)`: `fl` is the answer of `float(v)`, `td` that of `timedelta(seconds=float(v))`
     in whole microseconds -/
